@@ -10,7 +10,8 @@
 //	stackreq <maj> <min> <name> <boundary> <scheme> <host> <url> <remote> <hdr>
 //	                                                       httpspec.NewStack(name).ModifyRequest
 //	stackres <status> <hdr>                                ….ModifyResponse on the request/context of the last stackreq
-//	e2e …                                                  oracle-only: a real proxy using the stack (see e2e.go)
+//	e2e <name> <boundary> <raw header lines> <status> <hdr>  a real proxy using the stack (see e2e.go); the model is sent
+//	    e2e <name> <boundary> <scheme> <host> <url> <remote> <status> <request header as parsed> <hdr>
 //	hdr.canon|get|values|set|add|del, net.shp, re.field2   stdlib-model differential ops
 package c14
 
@@ -43,12 +44,14 @@ func init() { core.Register(P{}) }
 
 func (P) ID() string { return "C14" }
 func (P) Rule() string {
-	return "case = one generated header multiset (canonical keys as net/http parses them; 0-3 Connection lines with 0-4 tokens each in random " +
-		"case/spacing naming present, absent, fixed hop-by-hop and stamped headers, empty tokens; 0-3 pre-existing Via lines with and without this " +
-		"instance and near misses; pre-existing single/multi-line/empty X-Forwarded-*; Content-Length / Transfer-Encoding combinations) sent through " +
-		"the real stack (stackreq + stackres on the same context) and through each member modifier alone, or a batch of stdlib-model ops " +
-		"(CanonicalHeaderKey, Header Get/Set/Add/Del/Values, net.SplitHostPort, the Via whitespace split), or an e2e exchange through a real proxy " +
-		"using the stack; distinct by hash of the op list; non-trivial when the stack changed the header set (something removed) and kept at least one header"
+	return "case = one generated header multiset (keys as net/http parses them and, in 1 of 6, keys a modifier wrote in another spelling; 0-3 Connection " +
+		"lines with 0-4 tokens each in random case/spacing - also folded lines, bare CR/LF, VT, FF - naming present, absent, fixed hop-by-hop and stamped " +
+		"headers, empty tokens; Proxy-Connection token lists, Keep-Alive parameters; 0-3 pre-existing Via lines with and without this instance and near " +
+		"misses; pre-existing single/multi-line/empty X-Forwarded-*; Content-Length / Transfer-Encoding combinations) sent through the real stack " +
+		"(stackreq + stackres on the same context) and through each member modifier alone, or a batch of stdlib-model ops (CanonicalHeaderKey, Header " +
+		"Get/Set/Add/Del/Values, net.SplitHostPort, the Via whitespace split), or one e2e exchange through a real proxy using the stack (raw request with " +
+		"names in any case, obs-folded values, optional white space; scripted origin response) compared with the model's exchange; distinct by hash of " +
+		"the op list; non-trivial when the stack changed the header set (something removed) and kept at least one header"
 }
 
 func (P) Nontrivial(ops []string, impl []string) bool {
@@ -160,13 +163,15 @@ func arg(t []string, i int) string {
 	return string(b)
 }
 
-// errClass maps a modifier error to the model's enum.
+// errClass maps a modifier error to the model's enum: one class per aggregated error
+// (martian.MultiError joins its members with a newline; inside a Warning value the newline
+// is the two characters `\n`), joined by "+".
 func errClass(err error) string {
 	if err == nil {
 		return "ok"
 	}
 	var cs []string
-	for _, l := range strings.Split(err.Error(), "\n") {
+	for _, l := range strings.Split(strings.ReplaceAll(err.Error(), `\n`, "\n"), "\n") {
 		switch {
 		case strings.Contains(l, "detected request loop"):
 			cs = append(cs, "loop")
@@ -203,7 +208,7 @@ type ex struct {
 	outer   *fifo.Group
 	req     *http.Request
 	remove  func()
-	loopSig string // "" = the last stackreq's Via did not name this instance; else the sig to use if 400 is missing
+	loopSig string // "" = the last stackreq's Via did not name this instance; "?" = undecidable; else the sig to use if 400 is missing
 	e2e     *e2eEnv
 }
 
@@ -372,6 +377,9 @@ func (e *ex) Do(op string) core.Result {
 		mine := fmt.Sprintf("%d.%d %s-%s", req.ProtoMajor, req.ProtoMinor, name, bd)
 		fs, loopSig := oracleStackReq(before, req.Header, name+"-"+bd, mine, scheme, host, us, remote, cls, skip)
 		e.loopSig = loopSig
+		if !viaDecidable(before["Via"]) || exotic(before["Connection"]) {
+			e.loopSig = "?" // the oracle abstains on this request's loop clause, hence on the response status too
+		}
 		if f := first(fs); f != nil {
 			r.Fail, r.Sig = f.msg, f.sig
 		}
@@ -405,10 +413,14 @@ func (e *ex) Do(op string) core.Result {
 		cls := errClass(merr)
 		r := core.Result{Impl: fmt.Sprintf("%s %d %s", cls, res.StatusCode, encHeader(res.Header))}
 		var fs []*fl
-		if e.loopSig != "" {
+		if e.loopSig == "?" {
+			core.Count("stackres:oracle-abstains")
+		} else if e.loopSig != "" {
 			if res.StatusCode != 400 {
 				fs = append(fs, &fl{e.loopSig, fmt.Sprintf("the request's Via named this instance but the response status is %d, not 400", res.StatusCode)})
 			}
+			// the 400 still travels to the client through the stack: no hop-by-hop header on it either
+			fs = append(fs, oracleHop(before, res.Header, nil)...)
 		} else {
 			if res.StatusCode != status {
 				fs = append(fs, &fl{"c14:status-changed", fmt.Sprintf("response status %d became %d without a loop", status, res.StatusCode)})
